@@ -15,7 +15,8 @@ EXTENDS Naturals, Sequences, FiniteSets, TLC, Json, SequencesExt
 
 CONSTANTS K,        \* maximal number of tokens
           MaxDepth, \* maximal nesting
-          MaxDefer  \* maximal number of defer statements
+          MaxDefer, \* maximal number of defer statements
+          Alphabet  \* tokens that may be used (a second configuration explores long defer runs over a small alphabet)
 
 VARIABLES toks, open, hasLabel, hasGoto, nd
 
@@ -26,10 +27,10 @@ InFor == \E j \in 1 .. Len(open) : open[j] = "for"
 InBreakable == \E j \in 1 .. Len(open) : open[j] \in {"for", "sw0", "sw1"}
 CanStmt == Top # "sw0"
 
-Push(t, o) == toks' = Append(toks, t) /\ open' = Append(open, o)
-Same(t)    == toks' = Append(toks, t) /\ open' = open
-Pop(t)     == toks' = Append(toks, t) /\ open' = SubSeq(open, 1, Len(open) - 1)
-Repl(t, o) == toks' = Append(toks, t) /\ open' = [open EXCEPT ![Len(open)] = o]
+Push(t, o) == t \in Alphabet /\ toks' = Append(toks, t) /\ open' = Append(open, o)
+Same(t)    == t \in Alphabet /\ toks' = Append(toks, t) /\ open' = open
+Pop(t)     == t \in Alphabet /\ toks' = Append(toks, t) /\ open' = SubSeq(open, 1, Len(open) - 1)
+Repl(t, o) == t \in Alphabet /\ toks' = Append(toks, t) /\ open' = [open EXCEPT ![Len(open)] = o]
 
 Init == toks = <<>> /\ open = <<>> /\ hasLabel = FALSE /\ hasGoto = FALSE /\ nd = 0
 
